@@ -305,6 +305,8 @@ func main() {
 		}
 	case "run":
 		cmdRun(os.Args[2:])
+	case "consts":
+		cmdConsts(os.Args[2:])
 	case "replay":
 		cmdReplay(os.Args[2:])
 	default:
